@@ -544,9 +544,45 @@ EXT = {
     "eth_utils.toolz.partition_all": x_partition_all,
     "eth_utils.toolz.partition": x_partition,
     "collections.defaultdict": b_defaultdict,
+    "hexbytes.HexBytes": lambda E, v: v,          # a bytes subclass equal to its bytes
 }
 
-CLASS_CTORS = {}
+def ctor_nibbles(E, cls, nibbles):
+    """trie.typing.Nibbles(x): the tuple of nibbles; TypeError for a non-sequence, ValueError for an element that
+    is not a nibble.  (Nibbles objects are modelled as plain tuples of ints in 0..15.)"""
+    from contracts.seqspec import allnib, allnib_of
+    v = nibbles
+    if isinstance(v, Obj) and "__tuple__" in v.fields:
+        v = v.fields["__tuple__"]
+    if isinstance(v, SPy):
+        if not E.decide(x_is_list_like(E, v)):
+            E.raise_exc(TypeError, "Must pass in a tuple of nibbles")
+        v = refine(E, v)
+    if isinstance(v, ListObj):
+        v = b_tuple(E, v)
+    if isinstance(v, tuple):
+        for x in v:
+            if not ops.is_intlike(x):
+                E.raise_exc(ValueError, "not a nibble")
+            if not E.decide(mk_bool(z3.And(as_int_term(x) >= 0, as_int_term(x) <= 15))):
+                E.raise_exc(ValueError, "not a nibble")
+        return v
+    if isinstance(v, SSeq) and v.kind in ("tuple", "list") and v.elem == "int":
+        if v.rng is not None and v.rng[0] >= 0 and v.rng[1] <= 15:
+            return SSeq(v.t, "tuple", "int", rng=v.rng)
+        side = []
+        ok = allnib_of(v.t, side)
+        for f in side:
+            E.assume(mk_bool(f))
+        if not E.decide(mk_bool(ok)):
+            E.raise_exc(ValueError, "not a nibble")
+        return SSeq(v.t, "tuple", "int", rng=(0, 15))
+    if isinstance(v, (bytes, SSeq, str)):
+        E.raise_exc(TypeError, "Must pass in a tuple of nibbles")
+    raise Unsupported("Nibbles(%r)" % (v,))
+
+
+CLASS_CTORS = {"trie.typing:Nibbles": ctor_nibbles}
 
 
 # ---------------------------------------------------------------------------------------------------
@@ -817,6 +853,18 @@ def super_attr(E, sup, name):
                     return ops.seq_concat(inner, refine(E2, o))
                 return I.Builtin("tuple.__add__", tuple_add)
     raise Unsupported("super().%s in %s" % (name, cls.name))
+
+
+def symbolic_slot_hook(E, lst, j):
+    """value of lst[j] for a symbolic index j without a case split, when a model provides one"""
+    for h in SLOT_HOOKS:
+        r = h(E, lst, j)
+        if r is not NotImplemented:
+            return r
+    return NotImplemented
+
+
+SLOT_HOOKS = []
 
 
 def contains_hook(E, cont, x):
